@@ -137,7 +137,7 @@ func (k *kernel) renderShallow(leanName string) string {
 	return sb.String()
 }
 
-func konst(n int64) *E     { return &E{op: "const", n: big.NewInt(n)} }
+func konst(n int64) *E       { return &E{op: "const", n: big.NewInt(n)} }
 func konstBig(n *big.Int) *E { return &E{op: "const", n: new(big.Int).Set(n)} }
 
 type object struct {
@@ -184,6 +184,9 @@ func (k *kernel) fail(n ast.Node, format string, a ...any) {
 }
 
 func (k *kernel) emit(e *E) *E {
+	if e == nil { // the expression was outside the subset (k.err is set): keep going, the kernel is rejected at the end
+		return &E{op: "const"}
+	}
 	if e.op == "var" || e.op == "const" {
 		return e
 	}
@@ -508,8 +511,9 @@ func (k *kernel) call(sc *scope, x *ast.CallExpr) *E {
 
 // callMulti: calls with two results.  math/bits intrinsics are given their documented meaning with
 // 128-bit intermediate values, so that the ideal semantics is exact:
-//   hi, lo = bits.Mul64(a, b)      p = a*b;        hi = p >> 64, lo = p mod 2^64
-//   s, c   = bits.Add64(a, b, ci)  t = a + b + ci; s = t mod 2^64, c = t >> 64
+//
+//	hi, lo = bits.Mul64(a, b)      p = a*b;        hi = p >> 64, lo = p mod 2^64
+//	s, c   = bits.Add64(a, b, ci)  t = a + b + ci; s = t mod 2^64, c = t >> 64
 func (k *kernel) callMulti(sc *scope, x *ast.CallExpr) []*E {
 	if sel, ok := x.Fun.(*ast.SelectorExpr); ok {
 		if id, ok := sel.X.(*ast.Ident); ok {
